@@ -360,17 +360,21 @@ def handle_attrs(prog):
 
 
 def _unconditional_resets(prog, cls, attr):
-    """functions of cls (or related classes) that unconditionally assign self.attr = None"""
+    """functions that unconditionally assign <obj>.attr = None: methods of cls (or a related class) on self, or any
+    function resetting it through a reference (e.g. an expression node clearing the cache its array keeps for it)"""
     rel = [c for c in prog.classes if cls in prog.mro(c) or c in prog.mro(cls)]
     out = []
-    for c in rel:
-        for f in c.methods.values():
-            if f.name == "__init__":
-                continue
-            for st in f.node.body:
-                if isinstance(st, ast.Assign) and isinstance(st.value, ast.Constant) and st.value.value is None \
-                        and any(norm(t) == "self." + attr for t in st.targets):
-                    out.append(f)
+    for f in prog.funcs:
+        if f.name == "__init__":
+            continue
+        for st in f.node.body:
+            if isinstance(st, ast.Assign) and isinstance(st.value, ast.Constant) and st.value.value is None:
+                for t in st.targets:
+                    if isinstance(t, ast.Attribute) and t.attr == attr:
+                        own = norm(t.value) == "self" and f.cls in rel
+                        via = norm(t.value) != "self"
+                        if own or via:
+                            out.append(f)
     return out
 
 
